@@ -18,7 +18,7 @@ from . import absn, driver, replay
 
 REQ_OK = ['req_get', 'req_head', 'req_post_cl3', 'req_post_cl0', 'req_get_b', 'req_host_only', 'req_cookies', 'req_str',
           'req_te_ok', 'req_connect_proto', 'req_cl_two']
-REQ_OUT_REPAIRABLE = ['req_messy', 'req_secure_pad', 'req_ws_value_nl']
+REQ_OUT_REPAIRABLE = ['req_messy', 'req_secure_pad', 'req_ws_value_nl', 'req_cookie19ws']
 REQ_BIG = ['req_big_16379', 'req_big_16380', 'req_big_16383', 'req_big_16384', 'req_big_16385', 'req_big_32768']
 RESP_BIG = ['resp_big_16380', 'resp_big_16384', 'resp_big_16385']
 REQ_BAD = ['req_nopath', 'req_emptypath', 'req_noauth', 'req_hostmismatch', 'req_te_bad', 'req_dupmethod', 'req_latepseudo',
